@@ -1658,6 +1658,17 @@ impl<'a> Exchange<'a> {
     }
 }
 
+/// Read-only accessor for the out-of-tree verification harness.
+/// Compiled only with the `verif` feature; adds no behaviour.
+#[cfg(feature = "verif")]
+impl ExchangeId {
+    /// The unique id of the session this exchange lives on (the `id` of its
+    /// `SessionSnapshot`).
+    pub fn verif_session_id(&self) -> u32 {
+        self.session_id()
+    }
+}
+
 impl Drop for Exchange<'_> {
     fn drop(&mut self) {
         let closed = self.with_state(|state| {
